@@ -5,7 +5,7 @@ use crate::checks::c01::{check_generator_output, piece_class};
 use crate::engine::{generated, must, run_generated, Stats, SubCheck, Tier};
 use crate::gens::{self, Prog, Tok};
 use crate::segs::{self, OwnedSeg, SegSpec};
-use oracle::gen::{model_a_segs, model_b_segs, GenErr, MAX_INPUT_SIZE};
+use oracle::gen::{model_a_segs, model_b_segs, GenErr, Seg, MAX_INPUT_SIZE};
 use proptest::prelude::*;
 use serde::{Deserialize, Serialize};
 use ssdeep::{Generator, GeneratorError};
@@ -300,6 +300,58 @@ fn hook_strategy(wt: u64, max_log: u32) -> impl Strategy<Value = HookCase> {
         .prop_map(|(before, zeros, after, forms)| HookCase { before, zeros, after, forms })
 }
 
+/// A real slice of more than 2^32 bytes handed over in one call (no hook): zero bytes with noise at the start,
+/// and piece-making words around byte 2^32 and at the end.
+#[derive(Debug, Clone, serde::Serialize, serde::Deserialize)]
+pub struct HugeSlice {
+    pub over: u32,
+    pub seed: u64,
+    /// 0 update(&[u8]), 1 hash_buf
+    pub form: u8,
+}
+
+pub fn eval_huge_slice(c: &HugeSlice, st: &mut Stats) -> Result<(), String> {
+    let border = 1usize << 32;
+    let live = 4096usize;
+    let n = border + c.over as usize;
+    let mut v = vec![0u8; n];
+    let wt = crate::gens::word_table(c.seed);
+    let mut r = oracle::words::SplitMix(c.seed);
+    r.fill(&mut v[..32]);
+    // words of the levels around the one a 4 GiB input selects, laid over the last `live` bytes before the
+    // border and over everything after it
+    let mut pos = border - live;
+    let mut k = 0usize;
+    while pos + 7 <= n {
+        let level = 19 + (r.next() % 9) as usize;
+        let ws = &wt.words[level];
+        v[pos..pos + 7].copy_from_slice(&ws[k % ws.len()]);
+        k += 1;
+        pos += 7 + (r.next() % 3) as usize;
+    }
+    let segs = [Seg::Bytes(&v[..32]), Seg::Zeros((border - live - 32) as u64), Seg::Bytes(&v[border - live..])];
+    let (rb, s) = model_b_segs(&segs, None).map_err(|e| format!("HARNESS-PANIC: model B refused: {:?}", e))?;
+    let (ra, _) = model_a_segs(&segs).map_err(|e| format!("HARNESS-PANIC: model A refused: {:?}", e))?;
+    assert!(ra == rb, "ORACLE SELF-CHECK: models disagree");
+    if c.form % 2 == 0 {
+        let mut g = Generator::new();
+        must("update(one slice of more than 4 GiB)", || {
+            g.update(&v);
+        })?;
+        ensure_eq!(g.input_size(), n as u64, "input_size() after one slice of 2^32+{} bytes", c.over);
+        check_generator_output(&g, &rb, &format!("one slice of 2^32+{} bytes", c.over))?;
+    } else {
+        let h = must("hash_buf(one slice of more than 4 GiB)", || ssdeep::hash_buf(&v))?.map_err(|e| format!("hash_buf failed: {:?}", e))?;
+        ensure_eq!(h.to_string(), oracle::fmt::format_hash(rb.log, &rb.bh1, &rb.bh2_trunc), "hash_buf of one slice of 2^32+{} bytes", c.over);
+    }
+    st.class(&format!("index={:02}", rb.log));
+    st.class(&format!("pieces_sel={}", piece_class(s.cnt_sel)));
+    if s.cnt_sel >= 1 {
+        st.nontrivial(oracle::fingerprint(format!("{:?}", c).as_bytes()));
+    }
+    Ok(())
+}
+
 pub fn subchecks(tier: Tier) -> Vec<SubCheck> {
     let wt_seed = move || -> u64 {
         std::env::var("VERIF_SEED").ok().and_then(|s| s.trim().parse::<i128>().ok()).map(|v| v as u64).unwrap_or(0) ^ 0xC13
@@ -340,5 +392,14 @@ pub fn subchecks(tier: Tier) -> Vec<SubCheck> {
             eval_hook,
         ),
         main,
+        crate::engine::listed(
+            "single_slice_beyond_4gib",
+            "one update(&[u8]) / hash_buf call with a real slice of 2^32 + k bytes (zeros, noise at the start, words of levels 19..27 over the 4 KiB before byte 2^32 and everything after it): hash, input_size vs the reference models with the zero run in closed form; non-trivial = >= 1 piece at the selected level; distinct by case",
+            tier.pick(
+                vec![HugeSlice { over: 777, seed: 11, form: 0 }],
+                vec![HugeSlice { over: 777, seed: 11, form: 0 }, HugeSlice { over: 9, seed: 12, form: 1 }, HugeSlice { over: 70001, seed: 13, form: 0 }],
+            ),
+            eval_huge_slice,
+        ),
     ]
 }
